@@ -5746,6 +5746,8 @@ class TreeSequence:
             self._individuals_population = (
                 self._ll_tree_sequence.get_individuals_population()
             )
+            # The array is cached, so it must not be writeable by the caller
+            self._individuals_population.flags.writeable = False
         return self._individuals_population
 
     @property
@@ -5764,6 +5766,8 @@ class TreeSequence:
         """
         if self._individuals_time is None:
             self._individuals_time = self._ll_tree_sequence.get_individuals_time()
+            # The array is cached, so it must not be writeable by the caller
+            self._individuals_time.flags.writeable = False
         return self._individuals_time
 
     @property
@@ -5791,6 +5795,8 @@ class TreeSequence:
             self._individuals_location = individuals.location.reshape(
                 (self.num_individuals, n)
             )
+            # The array is cached, so it must not be writeable by the caller
+            self._individuals_location.flags.writeable = False
         return self._individuals_location
 
     @property
